@@ -112,7 +112,8 @@ theorem mem_aliasMembers {v : Variant} {env : Env} {fm : ModName} {als : List Al
 
 theorem reexports_ok_mem {v : Variant} {env : Env} {items : List Item} {re : List Str}
     (h : reexports v env items = .ok re) (n : Str) :
-    n ∈ re ↔ ∃ it ∈ items, ∃ xs, reexportsOf v env it = .ok xs ∧ n ∈ xs := by
+    n ∈ re ↔ ∃ pre it post, items = pre ++ it :: post ∧
+      ∃ xs, reexportsOf v env it = .ok xs ∧ n ∈ xs ∧ n ∉ delLater v post := by
   induction items generalizing re with
   | nil => simp [reexports] at h; subst h; simp
   | cons it rest ih =>
@@ -127,9 +128,24 @@ theorem reexports_ok_mem {v : Variant} {env : Env} {items : List Item} {re : Lis
         rw [h2] at h
         simp only [Except.ok.injEq] at h
         subst h
-        simp only [List.mem_append, List.mem_cons, exists_eq_or_imp, h1, Except.ok.injEq,
-          exists_eq_left']
-        rw [ih h2]
+        rw [List.mem_append, ih h2]
+        constructor
+        · rintro (hf | ⟨pre, it', post, rfl, xs', hx, hn, hd⟩)
+          · rw [List.mem_filter] at hf
+            refine ⟨[], it, rest, rfl, xs, h1, hf.1, ?_⟩
+            simpa using hf.2
+          · exact ⟨it :: pre, it', post, rfl, xs', hx, hn, hd⟩
+        · rintro ⟨pre, it', post, heq, xs', hx, hn, hd⟩
+          cases pre with
+          | nil =>
+            simp only [List.nil_append, List.cons.injEq] at heq
+            obtain ⟨rfl, rfl⟩ := heq
+            rw [h1] at hx; simp only [Except.ok.injEq] at hx; subst hx
+            left; rw [List.mem_filter]; exact ⟨hn, by simpa using hd⟩
+          | cons p pre' =>
+            simp only [List.cons_append, List.cons.injEq] at heq
+            obtain ⟨rfl, rfl⟩ := heq
+            right; exact ⟨pre', it', post, rfl, xs', hx, hn, hd⟩
 
 theorem fromMod_total {env : Env} {lvl : Nat} {mod : Option ModName} (h : ¬ (lvl = 0 ∧ mod = none)) :
     ∃ r, fromMod env lvl mod = .ok r := by
@@ -166,7 +182,7 @@ theorem reexports_total {v : Variant} {env : Env} {items : List Item}
         cases r <;> simp
       | _ => exact ⟨[], rfl⟩
     obtain ⟨xs, hxs⟩ := this
-    exact ⟨xs ++ ys, by simp [reexports, hxs, hys]⟩
+    exact ⟨xs.filter (fun n => !(delLater v rest).contains n) ++ ys, by simp [reexports, hxs, hys]⟩
 
 /-! ### the ordered, `del`-aware pass -/
 
@@ -230,7 +246,9 @@ theorem delSeen_sub_delAll (v : Variant) (it : Item) : ∀ n ∈ delSeen v it, n
   | del ns nested =>
     simp only [delSeen] at hn
     split at hn
-    · simp [delAll, hn]
+    · split at hn
+      · simpa [delAll] using hn
+      · simp [delAll, hn]
     · simp at hn
   | _ => simp [delSeen] at hn
 
@@ -444,10 +462,14 @@ def OwnModule (env : Env) (level : Nat) (module : Option ModName) (fm : ModName)
   (level = 1 ∧ env.isInit = true ∧ fm = env.self ++ module.getD [])
 
 /-- `n` is re-exported from the module's own package by a top-level `from` statement, and the
-    thing imported is not itself a module (`probe`: the unfixed code tests the alias, D31). -/
+    thing imported is not itself a module (`probe`: the unfixed code tests the alias, D31); with
+    CD-D repaired, moreover, no `del` after that statement names `n` (`delLater`; it is `[]` on
+    the tree without that repair, where the clause is vacuous). -/
 def OwnReexport (v : Variant) (env : Env) (items : List Item) (n : Str) : Prop :=
-  ∃ lvl mod als fm a, Item.importFrom lvl mod als ∈ items ∧ OwnModule env lvl mod fm ∧
-    a ∈ als ∧ a.name ≠ star ∧ env.exists_ (fm ++ [probe v a]) = false ∧ n = a.bound
+  ∃ pre post lvl mod als fm a, items = pre ++ Item.importFrom lvl mod als :: post ∧
+    OwnModule env lvl mod fm ∧
+    a ∈ als ∧ a.name ≠ star ∧ env.exists_ (fm ++ [probe v a]) = false ∧ n = a.bound ∧
+    n ∉ delLater v post
 
 /-- The value of `__all__` is statically a literal: the last plain (or, with D8 fixed, annotated)
     assignment to `__all__` has a literal value `es`, later `__all__ += <literal>` extend it,
@@ -528,14 +550,31 @@ theorem reexports_mem {v : Variant} {env : Env} {items : List Item} {re : List S
     (h : reexports v env items = .ok re) (n : Str) : n ∈ re ↔ OwnReexport v env items n := by
   rw [reexports_ok_mem h]
   constructor
-  · rintro ⟨it, hit, xs, hxs, hn⟩
-    obtain ⟨lvl, mod, als, fm, a, rfl, r⟩ := (reexportsOf_mem hxs).mp hn
-    exact ⟨lvl, mod, als, fm, a, hit, r⟩
-  · rintro ⟨lvl, mod, als, fm, a, hit, hown, ha, h1, h2, h3⟩
+  · rintro ⟨pre, it, post, heq, xs, hxs, hn, hd⟩
+    obtain ⟨lvl, mod, als, fm, a, rfl, hown, ha, h1, h2, h3⟩ := (reexportsOf_mem hxs).mp hn
+    exact ⟨pre, post, lvl, mod, als, fm, a, heq, hown, ha, h1, h2, h3, hd⟩
+  · rintro ⟨pre, post, lvl, mod, als, fm, a, heq, hown, ha, h1, h2, h3, hd⟩
     have hf := fromMod_some_iff.mpr hown
-    refine ⟨_, hit, aliasMembers v env fm als, ?_, ?_⟩
+    refine ⟨pre, _, post, heq, aliasMembers v env fm als, ?_, ?_, hd⟩
     · simp [reexportsOf, hf]
     · exact mem_aliasMembers.mpr ⟨a, ha, h1, h2, h3⟩
+
+/-- the statement of an own re-export is one of the module's statements -/
+theorem OwnReexport.stmt {v : Variant} {env : Env} {items : List Item} {n : Str}
+    (h : OwnReexport v env items n) :
+    ∃ lvl mod als fm a, Item.importFrom lvl mod als ∈ items ∧ OwnModule env lvl mod fm ∧
+      a ∈ als ∧ a.name ≠ star ∧ env.exists_ (fm ++ [probe v a]) = false ∧ n = a.bound := by
+  obtain ⟨pre, post, lvl, mod, als, fm, a, rfl, hown, ha, h1, h2, h3, _⟩ := h
+  exact ⟨lvl, mod, als, fm, a, by simp, hown, ha, h1, h2, h3⟩
+
+/-- without the CD-D repair every own-package `from` statement of the module re-exports -/
+theorem OwnReexport.of_stmt {v : Variant} {env : Env} {items : List Item} {n : Str}
+    (hv : v.cdd = false) {lvl : Nat} {mod : Option ModName} {als : List Alias} {fm : ModName} {a : Alias}
+    (hit : Item.importFrom lvl mod als ∈ items) (hown : OwnModule env lvl mod fm) (ha : a ∈ als)
+    (h1 : a.name ≠ star) (h2 : env.exists_ (fm ++ [probe v a]) = false) (h3 : n = a.bound) :
+    OwnReexport v env items n := by
+  obtain ⟨pre, post, rfl⟩ := List.append_of_mem hit
+  exact ⟨pre, post, lvl, mod, als, fm, a, rfl, hown, ha, h1, h2, h3, by simp [delLater, hv]⟩
 
 theorem mem_members_snoc {v : Variant} {items : List Item} {it : Item} {n : Str}
     (h : n ∈ members v items) (hd : n ∉ delSeen v it) : n ∈ members v (items ++ [it]) := by
